@@ -1855,6 +1855,12 @@ def _call(self, fn, st, b, t, summ, chain, tctrl, subst=None):
         if item in READ_FIXED:
             lo, hi = READ_FIXED[item]
             return ret(result_ok_err(mk(lo, hi, True, False, self.fresh("src", fn, b)), True))
+        if item in ("read_vec", "read_slice", "read_string", "check_eor") and len(dargs) > 1 and dargs[1]["k"] == "int":
+            # the in-memory reader decides `pos + n > len`: the sum must not wrap for an input-chosen n (a full-width length — a vint
+            # size — handed straight to a bulk read; lengths read from u8/u16/u32 prefixes cannot reach the top of usize)
+            nn = self.with_facts(st, dargs[1])
+            self._record(summ, fn, b, "T", "Overflow(Add)", f"reader position + {self.local_desc(fn, t['args'][1])}", nn["hi"] <= 2**62, nn["t"], chain,
+                         "an input-chosen length near usize::MAX makes the end-of-data test `pos + n` of the slice reader overflow")
         if item in ("read_vec", "read_slice", "read_string"):
             n = dargs[1] if len(dargs) > 1 else top(True)
             ln = n if n["k"] == "int" else mk(0, 2**64 - 1, True)
